@@ -346,6 +346,16 @@ func (group *Group) delRtspPubSession(session *rtsp.PubSession) {
 func (group *Group) delPullSession(session base.IObject) {
 	Log.Debugf("[%s] [%s] del PullSession from group.", group.UniqueKey, session.UniqueKey())
 
+	// Only the pull session that is attached as the input of this group owns the input pipeline.  An
+	// attempt that failed before it attached, or that was refused because a publisher had arrived in
+	// the meantime, must not tear down the pipeline of the input that is accepted now.
+	attached := (group.pullProxy.rtmpSession != nil && group.pullProxy.rtmpSession.UniqueKey() == session.UniqueKey()) ||
+		(group.pullProxy.rtspSession != nil && group.pullProxy.rtspSession.UniqueKey() == session.UniqueKey())
+	if !attached {
+		group.pullProxy.isSessionPulling = false
+		return
+	}
+
 	group.resetRelayPullSession()
 	group.delIn()
 }
